@@ -455,6 +455,15 @@ def analyse(steps, trailing_notes=()):
                     V.append(Violation("C11", "codec", "unrepresentable close reason was serialised: %s" % res[0], st))
             elif not res[0].startswith("codec ok"):
                 V.append(Violation("C11", "codec", "in-range bunch does not round-trip at bit offset %d: %s" % (off % 64, res[0]), st))
+        if op == "bbcut":
+            stats["unit"] = stats.get("unit", 0) + 1
+            res = [e for e in st.events if e.startswith("bb cut")]
+            if res:
+                t = res[0].split()
+                if t[5] != "1":
+                    V.append(Violation("C12", "cursor", "a read from a buffer %s bits too short left the cursor outside the valid range: %s" % (a[4], res[0]), st))
+                if t[2] == "1" and int(a[4]) > 0 and int(a[0]) != 2 and False:
+                    pass
         if op == "bbbits":
             stats["unit"] = stats.get("unit", 0) + 1
             res = [e for e in st.events if e.startswith("bb")]
